@@ -203,7 +203,17 @@ TWIN = {}
 FEATURES = {}
 
 
-def make_pair(name, kind='dict', setstate='records', base='duck', newargs=False, parent=None, passthrough=False, first_bases=(), slots=None, setattr_hook=False):
+def _wrapped(f):
+    """an ordinary signature-preserving decorator (tracing, timing, locking ...) around a remote-aware __getstate__"""
+    import functools
+
+    @functools.wraps(f)
+    def wrapper(*args, **kwargs):
+        return f(*args, **kwargs)
+    return wrapper
+
+
+def make_pair(name, kind='dict', setstate='records', base='duck', newargs=False, parent=None, passthrough=False, first_bases=(), slots=None, setattr_hook=False, decorated=False):
     def r_getstate(self, remote=False):
         LOG.append(('getstate', id(self), type(self).__name__, bool(remote)))
         return _state(self, remote, kind)
@@ -233,7 +243,7 @@ def make_pair(name, kind='dict', setstate='records', base='duck', newargs=False,
         rd['__getstate__'] = r_pt
         td['__getstate__'] = t_pt
     elif parent is None or kind is not None:
-        rd['__getstate__'] = r_getstate
+        rd['__getstate__'] = _wrapped(r_getstate) if decorated else r_getstate
         td['__getstate__'] = t_getstate
     if setstate == 'records':
         rd['__setstate__'] = _setstate
@@ -314,6 +324,8 @@ _R11 = make_pair('R11', 'slots_std', 'none', 'duck', slots=('sa', '__dict__'))  
 _R12 = make_pair('R12', None, None, 'duck', parent=_R0, first_bases=(H0,))      # remote-aware __getstate__ inherited from a NON-first base
 _R13 = make_pair('R13', None, None, 'marker', parent=_R1, first_bases=(H0,))
 _R14 = make_pair('R14', 'dict', 'records', 'duck', newargs='ex_kwonly')
+_R16 = make_pair('R16', 'dict', 'records', 'duck', decorated=True)              # remote-aware __getstate__ behind a functools.wraps decorator
+_R17 = make_pair('R17', 'dict', 'records', 'marker', decorated=True)
 _R15 = make_pair('R15', 'dict', 'none', 'marker', setattr_hook=True)             # no __setstate__, attribute assignment has side effects
 
 OPTIN_NAMES = list(OPTIN)
